@@ -11,6 +11,7 @@ import (
 	"encoding/json"
 	"fmt"
 	"os"
+	"os/exec"
 	"path/filepath"
 	"sort"
 	"strings"
@@ -35,24 +36,31 @@ const (
 	bDropInSlowCfg = "drop-in-slow-configure"
 	// the runtime end configures the plugin before answering RegisterPlugin, then refuses the registration
 	bCfgThenRefuse = "configure-then-refuse"
+	// the runtime end closes the connection as soon as it has accepted it (byte offset 0); for the stub the same as a
+	// drop during registration
+	bDropAtAccept = "drop-at-accept"
 )
 
 var behTerm = map[string]string{
 	bHealthy: "BHealthy", bUnreachable: "BUnreachable", bRefuse: "BRefuse", bDropInReg: "BDropInReg",
 	bSilentReg: "BSilentReg", bDropAfterReg: "BDropAfterReg", bCfgError: "BCfgError", bDropInCfg: "BDropAfterCfg",
 	bCfgReject: "BCfgReject", bCfgErrorDrop: "BCfgErrorDrop", bCfgRejectDrop: "BCfgRejectDrop",
-	bDropInSlowCfg: "BDropInSlowCfg", bCfgThenRefuse: "BCfgThenRefuse",
+	bDropInSlowCfg: "BDropInSlowCfg", bCfgThenRefuse: "BCfgThenRefuse", bDropAtAccept: "BDropInReg",
 }
 
 type lifeOp struct {
 	Op   string `json:"op"`             // start | stop | wait | lose | stopstart | startstart
 	Beh  string `json:"beh,omitempty"`  // runtime behaviour for start / stopstart (startstart: of the second Start)
 	Beh0 string `json:"beh0,omitempty"` // startstart: runtime behaviour for the first Start (meant to fail)
+	N    int    `json:"n,omitempty"`    // startmany: number of Starts in a row
 }
 
 func (o lifeOp) String() string {
 	if o.Op == "startstart" {
 		return o.Op + "(" + o.Beh0 + "," + o.Beh + ")"
+	}
+	if o.Op == "startmany" {
+		return fmt.Sprintf("startmany(%s,%d)", o.Beh, o.N)
 	}
 	if o.Beh != "" {
 		return o.Op + "(" + o.Beh + ")"
@@ -76,6 +84,8 @@ func (o lifeOp) term() string {
 		return "OStopStart " + behTerm[o.Beh]
 	case "startstart":
 		return "OStartStart " + behTerm[o.Beh0] + " " + behTerm[o.Beh]
+	case "startmany":
+		return "OStartMany " + behTerm[o.Beh] + " " + coqfmt.Nat(o.N)
 	}
 	panic("unknown op " + o.Op)
 }
@@ -95,7 +105,7 @@ type lifeObs struct {
 }
 
 func (o lifeObs) term() string {
-	k := map[string]string{"ok": "KOk", "err": "KErr", "returned": "KReturned", "blocked": "KBlocked"}[o.Class]
+	k := map[string]string{"ok": "KOk", "err": "KErr", "returned": "KReturned", "blocked": "KBlocked", "crashed": "KCrashed"}[o.Class]
 	st := map[string]string{"true": "(Some true)", "false": "(Some false)", "blocked": "None"}[o.Started]
 	return fmt.Sprintf("{| o_class := %s; o_started := %s; o_closes := %s; o_waiting := %s; o_running := %s |}", k, st, coqfmt.Nat(o.Closes), coqfmt.Nat(o.Waiting), coqfmt.Nat(o.Running))
 }
@@ -127,6 +137,14 @@ func (r *rig) setBehaviour2(b string) {
 		sc.Register = "silent"
 		r.unreachable.Store(false)
 		r.pl.failCfg.Store(false)
+		r.pl.cfgDelayMs.Store(0)
+		r.rt.setScript(sc)
+	case bDropAtAccept:
+		sc := healthyScript()
+		sc.DropAtAccept = true
+		r.unreachable.Store(false)
+		r.pl.failCfg.Store(false)
+		r.pl.cfgMask.Store(0)
 		r.pl.cfgDelayMs.Store(0)
 		r.rt.setScript(sc)
 	case bDropInSlowCfg, bCfgThenRefuse:
@@ -278,6 +296,7 @@ func hasBlocked(obs []lifeObs) bool {
 func runLifeChecked(ops []lifeOp, tm lifeTiming, w *stallWatch, retries *atomic.Int32) ([]lifeObs, error) {
 	var last []lifeObs
 	base := tm
+	var blockedRuns [][]lifeObs
 	for attempt := 0; attempt < 5; attempt++ {
 		// a "blocked" verdict that a run with twice the bound does not reproduce may be an operation that is only
 		// slow (released by a time-out of the code under test that is longer than the bound): the bound doubles
@@ -302,6 +321,7 @@ func runLifeChecked(ops []lifeOp, tm lifeTiming, w *stallWatch, retries *atomic.
 		if !hasBlocked(obs) {
 			return obs, nil
 		}
+		blockedRuns = append(blockedRuns, obs)
 		tm2 := tm
 		tm2.block *= 2
 		t1 := time.Now()
@@ -313,7 +333,15 @@ func runLifeChecked(ops []lifeOp, tm lifeTiming, w *stallWatch, retries *atomic.
 		if !w.overlaps(t1, time.Now()) && sameObs(obs, obs2) {
 			return obs, nil
 		}
+		if !w.overlaps(t1, time.Now()) && hasBlocked(obs2) {
+			blockedRuns = append(blockedRuns, obs2)
+		}
 		retries.Add(1)
+	}
+	// a hang that happens only now and then (a scheduling window) is not reproduced by the very next run: two
+	// stall-free runs that each saw an operation not return are accepted as that observation
+	if len(blockedRuns) >= 2 {
+		return blockedRuns[len(blockedRuns)-1], nil
 	}
 	return nil, fmt.Errorf("no stall-free, reproducible run in 5 attempts (last observation %+v)", last)
 }
@@ -370,6 +398,20 @@ func runLife(ops []lifeOp, tm lifeTiming) ([]lifeObs, error) {
 				if s := r.rt.last(); s != nil {
 					waitC(s.configured, tm.block)
 					waitC(s.closed, tm.block)
+				}
+			}
+		case "startmany":
+			// many Starts in a row, each must come back (with an error) before the next; observed once at the end
+			o.Class = "err"
+			for k := 0; k < op.N; k++ {
+				c := start(op.Beh)
+				if !c.wait(tm.block) {
+					o.Class, locked = "blocked", true
+					o.Err = fmt.Sprintf("Start number %d of %d did not return", k+1, op.N)
+					break
+				}
+				if c.err == nil {
+					o.Class = "ok"
 				}
 			}
 		case "run":
@@ -461,6 +503,15 @@ func judge(ops []lifeOp, obs []lifeObs) (deviation, slug string) {
 			started = false
 		}
 		switch op.Op {
+		case "startmany":
+			if !started {
+				wantClass, wantStarted = "err", false
+				if op.Beh != bUnreachable {
+					closes += op.N
+				}
+			} else {
+				wantClass, wantStarted = "err", true
+			}
 		case "start", "stopstart", "startstart", "run":
 			if op.Op == "stopstart" {
 				endSession()
@@ -539,7 +590,12 @@ func parseSeq(s string) []lifeOp {
 		if i := strings.IndexByte(f, '('); i > 0 {
 			op.Op, op.Beh = f[:i], strings.TrimSuffix(f[i+1:], ")")
 			if j := strings.IndexByte(op.Beh, ','); j > 0 {
-				op.Beh0, op.Beh = op.Beh[:j], op.Beh[j+1:]
+				if op.Op == "startmany" {
+					fmt.Sscanf(op.Beh[j+1:], "%d", &op.N)
+					op.Beh = op.Beh[:j]
+				} else {
+					op.Beh0, op.Beh = op.Beh[:j], op.Beh[j+1:]
+				}
 			}
 		}
 		if op.Op == "S" {
@@ -646,6 +702,12 @@ func lifeSequences(c *hx.Ctx) [][]lifeOp {
 		add("S stop start(" + f + ") start(" + bDropAfterReg + ") run(healthy) lose")
 		add("run(" + f + ") run(" + bDropAfterReg + ")")
 	}
+	// the runtime end closes the connection at byte offset 0, many times in a row (cheap: no handshake): every Start
+	// must come back with an error; then the stub must still work
+	for i := 0; i < c.Pick(4, 12); i++ {
+		add("startmany(" + bDropAtAccept + ",300) S stop")
+	}
+	add("start(" + bDropAtAccept + ") S wait stop")
 	add("startstart(unreachable,healthy) stop")
 	add("S lose startstart(" + bCfgError + "," + bRefuse + ") S")
 	// thorough: random longer sequences
@@ -699,35 +761,21 @@ func driveLife(c *hx.Ctx) error {
 	}
 	seqs = append(seqs, lifeSequences(c)...)
 
-	type result struct {
-		obs []lifeObs
-		err error
+	results, stalls, retries, err := runInWorkers(c, seqs, tm)
+	if err != nil {
+		return err
 	}
-	results := make([]result, len(seqs))
-	watch := newStallWatch()
-	var retries atomic.Int32
-	var wg sync.WaitGroup
-	sem := make(chan struct{}, 12)
-	for i := range seqs {
-		wg.Add(1)
-		sem <- struct{}{}
-		go func(i int) {
-			defer wg.Done()
-			defer func() { <-sem }()
-			obs, err := runLifeChecked(seqs[i], tm, watch, &retries)
-			results[i] = result{obs, err}
-		}(i)
-	}
-	wg.Wait()
-	close(watch.stop)
-	c.Count("process-stalls-seen", watch.count())
-	c.Count("sequences-repeated", int(retries.Load()))
+	c.Count("process-stalls-seen", stalls)
+	c.Count("sequences-repeated", retries)
 
 	for i, ops := range seqs {
-		if results[i].err != nil {
-			return fmt.Errorf("sequence %v: %v", ops, results[i].err)
+		if results[i].Err != "" {
+			return fmt.Errorf("sequence %v: %v", ops, results[i].Err)
 		}
-		obs := results[i].obs
+		obs := results[i].Obs
+		if results[i].Crash != "" {
+			c.Count("sequences-that-crashed-the-process", 1)
+		}
 		raw := lifeRaw{Stream: "life", Ops: ops, Obs: obs}
 		dev, slug := judge(ops, obs)
 		raw.Deviation = dev
@@ -800,4 +848,212 @@ func driveLife(c *hx.Ctx) error {
 		"corr: the observation sequence is one the LTS under the switches of the current code predicts; holds: it is one the LTS with all three " +
 		"defects off predicts. non-trivial: the sequence contains a fault or a restart."
 	return nil
+}
+
+// ---- worker processes ----------------------------------------------------------------------------
+//
+// The sequences run in re-executed child processes of this binary (driver "stublife-worker"): a panic in a
+// goroutine of the code under test kills the process it happens in, and must be an observation ("crashed", with
+// the child's last words) of the sequence that was running, not the end of the check.
+
+type workerIn struct {
+	BlockMs int64      `json:"block_ms"`
+	QuietMs int64      `json:"quiet_ms"`
+	Par     int        `json:"par"`
+	Index   []int      `json:"index"`
+	Seqs    [][]lifeOp `json:"seqs"`
+}
+
+type workerResult struct {
+	Index int       `json:"index"`
+	Obs   []lifeObs `json:"obs"`
+	Err   string    `json:"err,omitempty"`
+	Crash string    `json:"crash,omitempty"`
+}
+
+type workerDone struct {
+	Stalls  int `json:"stalls"`
+	Retries int `json:"retries"`
+}
+
+// lifeWorker runs the sequences of VERIF_LIFE_IN and appends one JSON line per finished sequence to VERIF_LIFE_OUT.
+func lifeWorker(c *hx.Ctx) error {
+	data, err := os.ReadFile(os.Getenv("VERIF_LIFE_IN"))
+	if err != nil {
+		return err
+	}
+	var in workerIn
+	if err := json.Unmarshal(data, &in); err != nil {
+		return err
+	}
+	out, err := os.OpenFile(os.Getenv("VERIF_LIFE_OUT"), os.O_CREATE|os.O_WRONLY|os.O_APPEND, 0o644)
+	if err != nil {
+		return err
+	}
+	defer out.Close()
+	tm := lifeTiming{block: time.Duration(in.BlockMs) * time.Millisecond, quiet: time.Duration(in.QuietMs) * time.Millisecond}
+	watch := newStallWatch()
+	var retries atomic.Int32
+	var mu sync.Mutex
+	var wg sync.WaitGroup
+	sem := make(chan struct{}, in.Par)
+	for k := range in.Seqs {
+		wg.Add(1)
+		sem <- struct{}{}
+		go func(k int) {
+			defer wg.Done()
+			defer func() { <-sem }()
+			fmt.Fprintf(os.Stderr, "VERIF-SEQ-BEGIN %d\n", in.Index[k])
+			obs, err := runLifeChecked(in.Seqs[k], tm, watch, &retries)
+			r := workerResult{Index: in.Index[k], Obs: obs}
+			if err != nil {
+				r.Err = err.Error()
+			}
+			line, _ := json.Marshal(r)
+			mu.Lock()
+			out.Write(append(line, '\n'))
+			mu.Unlock()
+			fmt.Fprintf(os.Stderr, "VERIF-SEQ-END %d\n", in.Index[k])
+		}(k)
+	}
+	wg.Wait()
+	close(watch.stop)
+	line, _ := json.Marshal(workerDone{Stalls: watch.count(), Retries: int(retries.Load())})
+	out.Write(append([]byte("DONE "), append(line, '\n')...))
+	return nil
+}
+
+// runInWorkers distributes the sequences over child processes; a child that dies marks the sequences it was
+// running as crashed, the ones it had not begun are given to another child.
+func runInWorkers(c *hx.Ctx, seqs [][]lifeOp, tm lifeTiming) ([]workerResult, int, int, error) {
+	results := make([]workerResult, len(seqs))
+	done := make([]bool, len(seqs))
+	scratch, err := os.MkdirTemp("", "hstub_workers")
+	if err != nil {
+		return nil, 0, 0, err
+	}
+	defer os.RemoveAll(scratch)
+	var mu sync.Mutex
+	stalls, retries := 0, 0
+	var firstErr error
+	batchNo := 0
+	runBatch := func(idx []int) (requeue []int) {
+		mu.Lock()
+		batchNo++
+		n := batchNo
+		mu.Unlock()
+		in := workerIn{BlockMs: tm.block.Milliseconds(), QuietMs: tm.quiet.Milliseconds(), Par: 2, Index: idx}
+		for _, i := range idx {
+			in.Seqs = append(in.Seqs, seqs[i])
+		}
+		inFile := filepath.Join(scratch, fmt.Sprintf("in_%d.json", n))
+		outFile := filepath.Join(scratch, fmt.Sprintf("out_%d.jsonl", n))
+		outDir := filepath.Join(scratch, fmt.Sprintf("w_%d", n))
+		data, _ := json.Marshal(in)
+		os.WriteFile(inFile, data, 0o644)
+		cmd := exec.Command(os.Args[0], "-out", outDir, "-seed", fmt.Sprint(c.Seed), "-tier", c.Tier, "-repo", c.Repo, "stublife-worker")
+		cmd.Env = append(os.Environ(), "VERIF_LIFE_IN="+inFile, "VERIF_LIFE_OUT="+outFile)
+		var stderr strings.Builder
+		cmd.Stderr = &stderr
+		runErr := cmd.Run()
+		begun, ended := map[int]bool{}, map[int]bool{}
+		var lastWords []string
+		for _, l := range strings.Split(stderr.String(), "\n") {
+			var i int
+			switch {
+			case strings.HasPrefix(l, "VERIF-SEQ-BEGIN "):
+				fmt.Sscanf(l, "VERIF-SEQ-BEGIN %d", &i)
+				begun[i] = true
+			case strings.HasPrefix(l, "VERIF-SEQ-END "):
+				fmt.Sscanf(l, "VERIF-SEQ-END %d", &i)
+				ended[i] = true
+			case strings.TrimSpace(l) != "":
+				lastWords = append(lastWords, l)
+			}
+		}
+		finished := false
+		mu.Lock()
+		defer mu.Unlock()
+		if data, err := os.ReadFile(outFile); err == nil {
+			for _, l := range strings.Split(string(data), "\n") {
+				if rest, ok := strings.CutPrefix(l, "DONE "); ok {
+					var d workerDone
+					json.Unmarshal([]byte(rest), &d)
+					stalls += d.Stalls
+					retries += d.Retries
+					finished = true
+					continue
+				}
+				var r workerResult
+				if l != "" && json.Unmarshal([]byte(l), &r) == nil && r.Index >= 0 && r.Index < len(seqs) {
+					results[r.Index], done[r.Index] = r, true
+				}
+			}
+		}
+		if finished && runErr == nil {
+			return nil
+		}
+		// the child died: what it was running crashed it
+		if len(lastWords) > 12 {
+			lastWords = lastWords[:12]
+		}
+		words := strings.Join(lastWords, " | ")
+		culprits := 0
+		for _, i := range idx {
+			if done[i] {
+				continue
+			}
+			if begun[i] && !ended[i] {
+				culprits++
+				results[i] = workerResult{Index: i, Crash: words,
+					Obs: []lifeObs{{Class: "crashed", Started: "blocked", Err: "the process running this sequence died: " + words}}}
+				done[i] = true
+			} else {
+				requeue = append(requeue, i)
+			}
+		}
+		if culprits == 0 && firstErr == nil {
+			firstErr = fmt.Errorf("a worker process died (%v) without a sequence in flight: %s", runErr, words)
+		}
+		return requeue
+	}
+	// batches of 16 sequences, 6 children at a time
+	var queue [][]int
+	for i := 0; i < len(seqs); i += 16 {
+		var idx []int
+		for j := i; j < i+16 && j < len(seqs); j++ {
+			idx = append(idx, j)
+		}
+		queue = append(queue, idx)
+	}
+	for round := 0; len(queue) > 0 && round < 40; round++ {
+		var next [][]int
+		var wg sync.WaitGroup
+		sem := make(chan struct{}, 6)
+		var nmu sync.Mutex
+		for _, idx := range queue {
+			wg.Add(1)
+			sem <- struct{}{}
+			go func(idx []int) {
+				defer wg.Done()
+				defer func() { <-sem }()
+				if rq := runBatch(idx); len(rq) > 0 {
+					nmu.Lock()
+					next = append(next, rq)
+					nmu.Unlock()
+				}
+			}(idx)
+		}
+		wg.Wait()
+		queue = next
+	}
+	if firstErr != nil {
+		return nil, 0, 0, firstErr
+	}
+	for i := range seqs {
+		if !done[i] {
+			return nil, 0, 0, fmt.Errorf("sequence %v was not run", seqs[i])
+		}
+	}
+	return results, stalls, retries, nil
 }
